@@ -69,8 +69,17 @@ func createShellFunctions() {
 		if s.Term != nil {
 			s.Term.Suspend()
 		}
+		prevContext, prevCancel := s.Context, s.Cancel
 		//nolint:fatcontext // we do need to update/reset the context and its cancel function.
 		s.Context, s.Cancel = context.WithCancel(context.Background()) // no timeout.
+		if s.Term == nil {
+			// Not interactive: the no timeout context is only for the command, the rest of the evaluation
+			// continues under the caller's context (and its deadline).
+			defer func() {
+				s.Cancel()
+				s.Context, s.Cancel = prevContext, prevCancel
+			}()
+		}
 		cmd, oerr := createCmd(*s, args)
 		if oerr != nil {
 			return *oerr
